@@ -8,10 +8,10 @@ Shared by Props/C07, C15, C22, C26.
 namespace PsVerif.Proofs.MkCert
 open PsVerif.Gen PsVerif.Model.Abs PsVerif.Model.AbsMk
 
-def benign : Env := { crashInBroadcast := false, scriptFails := false, policyFails := false }
-def hostile : Env := { crashInBroadcast := true, scriptFails := true, policyFails := true }
+def benign : Env := { trackAgreement := false, crashInBroadcast := false, scriptFails := false, policyFails := false }
+def hostile : Env := { trackAgreement := false, crashInBroadcast := true, scriptFails := true, policyFails := true }
 
-def sysIn (e : Env) := sys tableSwapInSender e
+def sysIn (e : Env) := sys tableSwapInSender { e with trackAgreement := true }
 def sysOut (e : Env) := sys tableSwapOutReceiver e
 
 def certIn := reachCert (sysIn benign) 80
